@@ -64,13 +64,19 @@ def extra(ctx, sc, r):
     n = appcheck.size_of(sc)
     for i, al in enumerate(r["alive"]):
         if al:
-            ctx.violate("clean", "ping-thread-alive-at-return", sc, "no simulated thread alive when run_forever returns",
+            ctx.violate("clean", appcheck.qualify("ping-thread-alive-at-return", sc), sc, "no simulated thread alive when run_forever returns",
                         f"run {i}: alive={al}", size=n)
     if r["leaked"]:
-        ctx.violate("clean", "transport-open-and-reachable-after-return", sc, "every transport closed or unreachable",
+        ctx.violate("clean", appcheck.qualify("transport-open-and-reachable-after-return", sc), sc, "every transport closed or unreachable",
                     f"open transports still referenced: {r['leaked']}", size=n)
     if r["outcome"][0] == "exc":
-        ctx.violate("terminates", "harness-main-raised", sc, "main returns", str(r["outcome"]), size=n)
+        ctx.violate("terminates", appcheck.qualify("harness-main-raised", sc), sc, "main returns", str(r["outcome"]), size=n)
+    # a ping timeout is configured (iv > 2*to is the regime C16_detect_partial proves; the scenarios here also use
+    # iv = 1.5*to where the unchanged tree still reports, only later): a run whose server falls silent must end by
+    # that timeout, it may not sit blocked until the horizon
+    if sc.get("to") and sc.get("iv") and r["trace"].endswith(":blocked") and sc.get("kind") in ("rerun", "end", None, "keepalive"):
+        ctx.violate("terminates", appcheck.qualify("blocked-although-ping-timeout-configured", sc), sc,
+                    "the run ends by the ping/pong timeout", r["trace"][-300:], size=n)
 
 
 def closer_extra(ctx, sc, r):
@@ -79,9 +85,9 @@ def closer_extra(ctx, sc, r):
     n = appcheck.size_of(sc)
     tr = r["trace"]
     if ":ret:" not in tr and ":raised:" not in tr:
-        ctx.violate("terminates", "second-thread-close-no-return", sc, "run_forever returns", tr[-300:], size=n)
+        ctx.violate("terminates", appcheck.qualify("second-thread-close-no-return", sc), sc, "run_forever returns", tr[-300:], size=n)
     if ":raised:" in tr:
-        ctx.violate("terminates", "second-thread-close-raises", sc, "run_forever returns", tr[-300:], size=n)
+        ctx.violate("terminates", appcheck.qualify("second-thread-close-raises", sc), sc, "run_forever returns", tr[-300:], size=n)
 
 
 SITES = [("on_open", 0), ("on_message", 0), ("on_message", 1), ("on_message", 2), ("on_data", 0), ("on_data", 2),
